@@ -1,0 +1,83 @@
+//go:build verif
+
+// Contracts for the fvc verification-condition generator in /verif (comment-only file).
+//
+// C15 - how a session id is announced to the client: (*Session).setSession and (*Session).delSession, checked against
+// their bodies (they were assumed ghost updates before). The fasthttp side is the ghost model of the dependency specs:
+//   response cookies   jarHas/jarVal/jarAttr[respJar(ctx)][name]   (mw_C20.spec; jarAttr is the attribute record of the
+//                      cookie object at the moment it was written: attrDomain/attrMaxAge/attrSecure/attrHTTPOnly/
+//                      attrSameSite, mw_C12.spec); Path and Expires of a cookie object: jcPath/jcExp (mw_C18.spec) -
+//                      they are not part of the jar record, so they are checked at the SetCookie call itself
+//   request cookies    jarHas[reqJar(ctx)][name]
+//   response header    outHdr/outHdrSet (SetBytesV, mw_C14.spec), hdrCnt (Del, mw_C17.spec)
+//   request header     rqHdrHas/rqHdrVal[reqJar(ctx)][name] (mw_C15.spec)
+
+package session
+
+//@ props C15
+
+//@ macro sessName(s) = s.config.sessionName
+//@ macro viaHeader(s) = s.config.source == SourceHeader
+// fasthttp.CookieSameSiteLaxMode = 2, StrictMode = 3, NoneMode = 4; anything but "strict"/"none" (any case) means Lax.
+//@ macro sameSiteMode(v) = ite(lower(v) == "strict", 3, ite(lower(v) == "none", 4, 2))
+// Domain, HttpOnly, SameSite as configured; Secure as configured, and always with SameSite=None (fasthttp switches it on).
+//@ macro cookieFlagsOK(a, cfg) = attrDomain(a) == cfg.CookieDomain && attrHTTPOnly(a) == cfg.CookieHTTPOnly && attrSameSite(a) == sameSiteMode(cfg.CookieSameSite) && attrSecure(a) == (cfg.CookieSecure || sameSiteMode(cfg.CookieSameSite) == 4)
+//@ macro respCk(s) = respJar(s.ctx)
+//@ macro reqCk(s) = reqJar(s.ctx)
+
+// The response announces s.id as the live session id:
+//   header source: response header <name> = id, and the request header is rewritten to the id as well (later readers of
+//                  this request see the id the server uses);
+//   cookie/query source: response cookie <name> = id, not an expiring one, flags from the configuration.
+//@ macro announcedLive(s) = ite(viaHeader(s), outHdrSet[sessName(s)] && outHdr[sessName(s)] == cid(s.id) && rqHdrHas[reqCk(s)][sessName(s)] && rqHdrVal[reqCk(s)][sessName(s)] == s.id, jarHas[respCk(s)][sessName(s)] && jarVal[respCk(s)][sessName(s)] == s.id && attrMaxAge(jarAttr[respCk(s)][sessName(s)]) >= 0 && cookieFlagsOK(jarAttr[respCk(s)][sessName(s)], s.config))
+// The response withdraws the session id and the request no longer presents it:
+//   header source: no response header <name>, request header <name> removed;
+//   cookie/query source: response cookie <name> with empty value and "delete now" (Max-Age < 0), same Domain and flags as
+//                  the live cookie (a client only replaces a cookie of the same name/domain/path); request cookie removed.
+//@ macro announcedDead(s) = ite(viaHeader(s), hdrCnt[sessName(s)] == 0 && !rqHdrHas[reqCk(s)][sessName(s)], jarHas[respCk(s)][sessName(s)] && jarVal[respCk(s)][sessName(s)] == "" && attrMaxAge(jarAttr[respCk(s)][sessName(s)]) < 0 && cookieFlagsOK(jarAttr[respCk(s)][sessName(s)], s.config) && !jarHas[reqCk(s)][sessName(s)])
+
+// Nothing but the entry <name> of the context's own request/response headers changes.
+//@ macro otherCookiesKept(s) = forallI(h, forallS(k, (h != respCk(s) && h != reqCk(s)) || k != sessName(s) ==> jarHas[h][k] == old(jarHas[h][k]) && jarVal[h][k] == old(jarVal[h][k]) && jarAttr[h][k] == old(jarAttr[h][k])))
+//@ macro otherHeadersKept(s) = forallI(h, forallS(k, h != reqCk(s) || k != sessName(s) ==> rqHdrHas[h][k] == old(rqHdrHas[h][k]) && rqHdrVal[h][k] == old(rqHdrVal[h][k])))
+
+// setSession: tells the client the id of this session (s.id), under the configured name and with the configured
+// attributes. Lifetime: Max-Age = whole seconds of the idle timeout and Expires = now + idle timeout, or neither for a
+// session-only cookie.
+//@ func (*Session).setSession
+//@   requires has-config: s.ctx == nil || s.config != nil
+//@   modifies rqHdrHas, rqHdrVal, outHdr, outHdrSet, jarHas, jarVal, jarAttr, ckKey, ckVal, ckAttr, jcPath, jcExp, jcPooled
+//@   atcall @fasthttp.(*RequestHeader).SetBytesV: request-header-gets-the-id: h == reqCk(s) && key == sessName(s) && str(value) == s.id
+//@   atcall @fasthttp.(*ResponseHeader).SetBytesV: response-header-gets-the-id: key == sessName(s) && str(value) == s.id && called(@fasthttp.(*RequestHeader).SetBytesV)
+//@   atcall @fasthttp.(*Cookie).SetMaxAge: session-only-no-max-age: !s.config.CookieSessionOnly
+//@   atcall @fasthttp.(*Cookie).SetExpire: session-only-no-expires: !s.config.CookieSessionOnly
+//@   atcall @fasthttp.(*ResponseHeader).SetCookie: name-value-path-as-configured: h == respCk(s) && ckKey[cookie] == sessName(s) && ckVal[cookie] == s.id && jcPath[cookie] == s.config.CookiePath
+//@   atcall @fasthttp.(*ResponseHeader).SetCookie: flags-as-configured: cookieFlagsOK(ckAttr[cookie], s.config)
+//@   atcall @fasthttp.(*ResponseHeader).SetCookie: lifetime-is-idle-timeout: !s.config.CookieSessionOnly ==> attrMaxAge(ckAttr[cookie]) == int(durSeconds(s.idleTimeout)) && tInst(jcExp[cookie]) == clockNow + s.idleTimeout
+// (the parts of announcedLive first: each is decided in well under a second, the conjunction under the ite is not)
+//@   ensures header-response: s.ctx != nil && viaHeader(s) ==> outHdrSet[sessName(s)] && outHdr[sessName(s)] == cid(s.id)
+//@   ensures header-request: s.ctx != nil && viaHeader(s) ==> rqHdrHas[reqCk(s)][sessName(s)] && rqHdrVal[reqCk(s)][sessName(s)] == s.id
+//@   ensures cookie-name-value: s.ctx != nil && !viaHeader(s) ==> jarHas[respCk(s)][sessName(s)] && jarVal[respCk(s)][sessName(s)] == s.id
+//@   ensures cookie-not-expiring: s.ctx != nil && !viaHeader(s) && s.idleTimeout >= 0 ==> attrMaxAge(jarAttr[respCk(s)][sessName(s)]) >= 0
+//@   ensures cookie-flags: s.ctx != nil && !viaHeader(s) ==> cookieFlagsOK(jarAttr[respCk(s)][sessName(s)], s.config)
+//@   ensures announced: s.ctx != nil && s.idleTimeout >= 0 ==> announcedLive(s)
+//@   ensures no-context-no-effect: s.ctx == nil ==> jarHas == old(jarHas) && jarVal == old(jarVal) && jarAttr == old(jarAttr) && outHdr == old(outHdr) && outHdrSet == old(outHdrSet) && rqHdrHas == old(rqHdrHas) && rqHdrVal == old(rqHdrVal)
+//@   ensures other-cookies-kept: otherCookiesKept(s)
+//@   ensures other-request-headers-kept: otherHeadersKept(s)
+//@   ensures only-own-response-header: forallS(k, k != sessName(s) ==> outHdr[k] == old(outHdr[k]) && outHdrSet[k] == old(outHdrSet[k]))
+
+// delSession: tells the client to drop the session id and removes it from the request.
+//@ func (*Session).delSession
+//@   requires has-config: s.ctx == nil || s.config != nil
+//@   modifies rqHdrHas, hdrCnt, jarHas, jarVal, jarAttr, ckKey, ckVal, ckAttr, jcPath, jcExp, jcPooled
+//@   atcall @fasthttp.(*RequestHeader).Del: request-header-removed: h == reqCk(s) && key == sessName(s)
+//@   atcall @fasthttp.(*ResponseHeader).Del: response-header-removed: key == sessName(s) && called(@fasthttp.(*RequestHeader).Del)
+//@   atcall @fasthttp.(*RequestHeader).DelCookie: request-cookie-removed: h == reqCk(s) && key == sessName(s)
+//@   atcall @fasthttp.(*ResponseHeader).DelCookie: pending-response-cookie-removed: h == respCk(s) && key == sessName(s)
+//@   atcall @fasthttp.(*ResponseHeader).SetCookie: expiring-cookie-same-name-path: h == respCk(s) && ckKey[cookie] == sessName(s) && ckVal[cookie] == "" && jcPath[cookie] == s.config.CookiePath
+//@   atcall @fasthttp.(*ResponseHeader).SetCookie: flags-as-configured: cookieFlagsOK(ckAttr[cookie], s.config)
+//@   atcall @fasthttp.(*ResponseHeader).SetCookie: expires-in-the-past: attrMaxAge(ckAttr[cookie]) < 0 && tInst(jcExp[cookie]) < clockNow
+//@   ensures withdrawn: s.ctx != nil ==> announcedDead(s)
+//@   ensures no-context-no-effect: s.ctx == nil ==> jarHas == old(jarHas) && jarVal == old(jarVal) && jarAttr == old(jarAttr) && hdrCnt == old(hdrCnt) && rqHdrHas == old(rqHdrHas)
+//@   ensures other-cookies-kept: otherCookiesKept(s)
+//@   ensures other-request-headers-kept: forallI(h, forallS(k, h != reqCk(s) || k != sessName(s) ==> rqHdrHas[h][k] == old(rqHdrHas[h][k])))
+//@   ensures only-own-response-header: forallS(k, k != sessName(s) ==> hdrCnt[k] == old(hdrCnt[k]))
